@@ -297,3 +297,61 @@ def cli_chain(case: dict) -> dict:
         import shutil
         shutil.rmtree(d, ignore_errors=True)
     return {"steps": steps}
+
+
+# ---------------------------------------------------------------------------
+# C17: imports
+
+def import_case(case: dict) -> dict:
+    import os
+    import shutil
+    import tempfile
+    from nix_manipulator.parser import parse_file
+    root = tempfile.mkdtemp(prefix="nima-imp-")
+    old = os.getcwd()
+    try:
+        def p(comps):
+            return os.path.join(root, *comps) if comps else root
+
+        def sp_text(sp):
+            if sp["abs"]:
+                return p(sp["comps"])
+            return "/".join(sp["comps"])
+        # decoys: every directory (and the working directories) holds every file name, val = own path
+        imports: dict = {}
+        prev = case["entry"]
+        for i, hop in enumerate(case["chain"], start=1):
+            imports.setdefault(tuple(prev), []).append((f"n{i}", "import " + sp_text(hop["sp"])))
+            prev = hop["file"]
+        k = len(case["chain"]) + 1
+        fault = case["fault"]
+        if fault != "none":
+            arg = {"string": '"./m.nix"', "angle": "<nixpkgs>", "call": "(f ./m.nix)", "missing": "./no-such-file.nix"}[fault]
+            imports.setdefault(tuple(prev), []).append((f"n{k}", "import " + arg))
+        for d in case["dirs"]:
+            os.makedirs(p(d), exist_ok=True)
+            for n in case["names"]:
+                f = list(d) + [n]
+                lines = [f'  val = "{"/".join(f)}";'] + [f"  {key} = {imp};" for key, imp in imports.get(tuple(f), [])]
+                with open(p(f), "w", encoding="utf-8") as fh:
+                    fh.write("{\n" + "\n".join(lines) + "\n}\n")
+        os.makedirs(p(case["cwd"]), exist_ok=True)
+        os.chdir(p(case["cwd"]))
+        entry = sp_text(case["entrySp"])
+        try:
+            with time_limit(20):
+                cur = parse_file(entry)
+                for i in range(1, len(case["chain"]) + 1):
+                    cur = cur[f"n{i}"]
+                if fault != "none":
+                    cur = cur[f"n{k}"]
+                v = cur["val"]
+                val = getattr(v, "value", v)
+            return {"res": "value", "val": str(val).split("/"), "mro": []}
+        except BaseException as e:  # noqa: BLE001
+            if isinstance(e, (KeyboardInterrupt, SystemExit)):
+                raise
+            return {"res": type(e).__name__, "val": [], "mro": [c.__name__ for c in type(e).__mro__], "msg": str(e)[:200]}
+    finally:
+        os.chdir(old)
+        shutil.rmtree(root, ignore_errors=True)
